@@ -1,7 +1,157 @@
 import Mustache.Basic.LineIO
+import Mustache.Model.Worlds
+import Mustache.Driver.World
+/-! `driver worlds`: runs the process model (`Model/Worlds.lean`) on an op file and prints the observation lines of
+    `harness/worlds_driver.cpp`. Per-world ops are executed by the world driver's `step` (imported) on the `WM` stored in
+    the process model, through `POp.onWorld`. -/
 namespace Mustache.Driver.Worlds
-/-- stub, replaced when the model lands -/
+open Mustache Mustache.Model
+
+structure DSt where
+  p : Proc := {}
+  side : List (Nat × World.St) := []     -- per live world: the world driver's bookkeeping (issued handles, names, classes)
+  cur : Option Nat := none
+
+def DSt.sideOf (s : DSt) (k : Nat) : World.St :=
+  match s.side.find? (·.1 == k) with
+  | some (_, st) => st
+  | none => {}
+
+def DSt.setSide (s : DSt) (k : Nat) (st : World.St) : DSt :=
+  { s with side := if s.side.any (·.1 == k) then s.side.map (fun p => if p.1 == k then (k, st) else p) else s.side ++ [(k, st)] }
+
+/-- the world driver's state of world `k`: bookkeeping + the model's current `WM` -/
+def DSt.worldSt (s : DSt) (k : Nat) : Option World.St :=
+  (s.p.world? k).map (fun e => { s.sideOf k with w := e.wm })
+
+/-- the effect of one world-driver line on a world's `WM`, given the driver's bookkeeping `side` for that world.
+    `dump` is a query; `worldid` re-stamps a world (it is for the single-world driver before its world exists and is
+    rejected here). `Proofs/WorldsDriver.lean`: this never changes `worldId`. -/
+def lineEffect (side : World.St) (line : String) (wm : WM) : WM :=
+  match words line with
+  | ["dump"] => wm
+  | ["worldid", _] => wm
+  | _ => (World.step { side with w := wm } line).1.w
+
+/-- the process operation a world-driver line on world `k` amounts to -/
+def lineOp (side : World.St) (k : Nat) (line : String) : POp := .onWorld k (lineEffect side line)
+
+/-- run one world-driver line on world `k` through `POp.onWorld` -/
+def DSt.onWorld (s : DSt) (k : Nat) (line : String) : DSt × List String :=
+  match s.worldSt k with
+  | none => (s, ["bad-op"])
+  | some st =>
+    let (st', outs) := World.step st line
+    let p' := s.p.step (lineOp (s.sideOf k) k line)
+    ({ s with p := p' }.setSide k st', outs)
+
+def parseCtx (ws : List String) : Option (Bool × Option Nat) :=
+  ws.foldlM (fun (acc : Bool × Option Nat) tok =>
+    if tok = "auto" then some (acc.1, none)
+    else if tok = "ctx=own" then some (false, acc.2)
+    else if tok = "ctx=shared" then some (true, acc.2)
+    else if tok.startsWith "id=" then (tok.drop 3).toString.toNat?.map (fun n => (acc.1, some n))
+    else none) (false, none)
+
+def DSt.create (s : DSt) (shared : Bool) (id : Option Nat) : DSt × Nat × Nat :=
+  let k := s.p.nextSlot
+  let p' := match id with
+    | none => s.p.step (.newAuto shared)
+    | some n => s.p.step (.newExplicit n shared)
+  let wid := match p'.world? k with | some e => e.id | none => 0
+  ({ s with p := p', cur := some k }.setSide k {}, k, wid)
+
+def DSt.drop (s : DSt) (k : Nat) : DSt :=
+  { s with p := s.p.step (.drop k), side := s.side.filter (·.1 != k), cur := if s.cur == some k then none else s.cur }
+
+def stripL (ls : List String) : List String := ls.filter (fun l => !l.startsWith "L ")
+
+def step (s : DSt) (line : String) : DSt × List String :=
+  match words line with
+  | [] => (s, [])
+  | "world" :: "new" :: rest =>
+    match parseCtx rest with
+    | none => (s, ["bad-op"])
+    | some (shared, id) =>
+      let (s', k, wid) := s.create shared id
+      (s', [s!"world {k} id={wid}"])
+  | ["world", "drop", ks] =>
+    match ks.toNat? with
+    | some k => if (s.p.world? k).isSome then (s.drop k, [s!"dropped {k}"]) else (s, ["bad-op"])
+    | none => (s, ["bad-op"])
+  | "world" :: "churn" :: ns :: rest =>
+    match ns.toNat?, parseCtx ("ctx=shared" :: rest) with
+    | some n, some (shared, none) => Id.run do
+      let mut st := s
+      let mut lo := 0
+      let mut hi := 0
+      let mut bad := 0
+      let keep := s.cur
+      for i in [0:n] do
+        let (s1, k, wid) := st.create shared none
+        lo := if i = 0 then wid else min lo wid
+        hi := max hi wid
+        let (s2, _) := s1.onWorld k "create -"
+        let ok := match s2.worldSt k with
+          | some ws =>
+            match ws.issued[0]? with
+            | some h => ws.w.isValid h.seen && h.seen.world == wid
+            | none => false
+          | none => false
+        if !ok then bad := bad + 1
+        st := s2.drop k
+      return ({ st with cur := keep }, [s!"churn n={n} ids={lo}..{hi} bad={bad}"])
+    | _, _ => (s, ["bad-op"])
+  | ["world", "reserve"] =>
+    let (p', r) := s.p.nextWorldId
+    ({ s with p := p' }, [s!"reserved id={r}"])
+  | "world" :: _ => (s, ["bad-op"])
+  | ["use", ks] =>
+    match ks.toNat? with
+    | some k => if (s.p.world? k).isSome then ({ s with cur := some k }, ["ok"]) else (s, ["bad-op"])
+    | none => (s, ["bad-op"])
+  | ["dumpall"] => Id.run do
+    let mut st := s
+    let mut out : List String := []
+    for e in s.p.worlds do
+      let (s', ls) := st.onWorld e.slot "dump"
+      st := s'
+      out := out ++ [s!"W {e.slot} id={e.id}"] ++ stripL ls
+    return (st, out ++ ["endall"])
+  | w0 :: rest =>
+    match s.cur with
+    | none => (s, ["bad-op"])
+    | some c =>
+      if w0 = "validin" || w0 = "getin" then
+        match rest, s.worldSt c with
+        | ks :: es :: more, some cst =>
+          match ks.toNat?, cst.entity es with
+          | some k, some h =>
+            match s.p.world? k with
+            | none => (s, ["bad-op"])
+            | some t =>
+              -- the handle reaches world k as its packed 64-bit value
+              let h' := h.seen
+              if w0 = "validin" && more.isEmpty then (s, [if t.wm.isValid h' then "valid=1" else "valid=0"])
+              else match more with
+                | [cs] =>
+                  if w0 = "getin" then
+                    match (cs.toList.head?).bind World.compOf with
+                    | some ci => (s, [match t.wm.getComp h' ci with | none => "val=null" | some v => "val=" ++ World.showVal v])
+                    | none => (s, ["bad-op"])
+                  else (s, ["bad-op"])
+                | _ => (s, ["bad-op"])
+          | _, _ => (s, ["bad-op"])
+        | _, _ => (s, ["bad-op"])
+      else if ["teardown", "worldid", "defaultctx", "threads", "storagecap"].contains w0 then (s, ["bad-op"])
+      else
+        let (s', outs) := s.onWorld c line
+        (s', if w0 = "dump" then stripL outs else outs)
+
 def main (_args : List String) : IO UInt32 := do
-  IO.eprintln "driver: model Worlds not built yet"
-  return 2
+  let _ ← foldStdin (fun s l => do
+    let (s', outs) := step s l
+    for o in outs do IO.println o
+    pure s') ({} : DSt)
+  return 0
 end Mustache.Driver.Worlds
